@@ -1,18 +1,27 @@
 #!/bin/bash
-# tools/intake_round.sh <round-tag e.g. r3> <out-dir-prefix e.g. /tmp/w3_> [ids...]
+# tools/intake_round.sh <round-tag e.g. r4> <out-dir-prefix e.g. /tmp/w4_> [ids...]
 # For every <prefix><Cxx>_out/m<i>: confirm (demo passes at HEAD, fails with the patch, original
 # suite passes with the patch), keep as /verif/seeded/<Cxx>-<tag>m<i>, then run the property's
-# quick check against it.
+# quick check against it on an isolated copy of /repo (tools/iso.sh). Four properties in parallel.
 TAG="$1"; PRE="$2"; shift 2
 IDS="${@:-C02 C04 C05 C06 C07 C08 C09 C10 C11 C15 C18 C19 C20}"
-for c in $IDS; do
+one() {
+  c=$1; k=$2
   for d in ${PRE}${c}_out/m*/; do
     [ -d "$d" ] || continue
     i=$(basename $d); id="$c-${TAG}$i"
-    R=$(/verif/tools/confirm_auto.sh "$d" "$id" 2>&1 | tail -2 | tr '\n' ' ')
+    R=$(CONFIRM_WT=/tmp/confirm_wt_$k /verif/tools/confirm_auto.sh "$d" "$id" 2>&1 | tail -2 | tr '\n' ' ')
     echo "$id: $R"
     case "$R" in *CONFIRMED\ -\>*) ;; *) continue;; esac
-    D=$(/verif/tools/try_patch.sh /verif/seeded/$id/patch.diff quick $c | cut -c1-260)
-    echo "   -> $D"
+    D=$(/verif/tools/iso.sh intake$k /verif/seeded/$id/patch.diff quick $c | cut -c1-260)
+    echo "$id   -> $D"
   done
+}
+k=0
+for c in $IDS; do
+  k=$((k+1))
+  one $c $((k % 4)) > /dev/shm/intake_$c.txt 2>&1 &
+  if [ $((k % 4)) -eq 0 ]; then wait; fi
 done
+wait
+for c in $IDS; do cat /dev/shm/intake_$c.txt; done
